@@ -1,4 +1,5 @@
 import AgVerif.Model.Propagate
+import AgVerif.Proof.PropagateSound
 /-!
 # C21 — register propagation on one basic block: what is refuted and what is proved
 
@@ -31,5 +32,27 @@ theorem past_redefinition_before : pastRedefinition.run javaSem env74 = .ret 7 [
 theorem past_redefinition_after : (propagate pastRedefinition).run javaSem env74 = .ret 3 [] := by decide
 
 theorem past_redefinition_not_safe : ¬ SafeBlock pastRedefinition := by decide
+
+/-- `v0 = p10 + p11; v1 = v0 * v0; v2 = v1 - 1; return v2` -/
+def safeExample : Block :=
+  ⟨[10, 11],
+   [.assign (some 0) (.bin .add (some 10) (.var 10) (some 11) (.var 11)),
+    .assign (some 1) (.bin .mul (some 0) (.var 0) (some 0) (.var 0)),
+    .assign (some 2) (.bin .sub (some 1) (.var 1) none (.const 1)),
+    .ret (some 2) (.var 2)]⟩
+
+/-- non-vacuity of `propagate_sound`: the pass folds the whole block into the return, and every change is safe -/
+theorem safeExample_safe : SafeBlock safeExample ∧
+    (propagate safeExample).stmts =
+      [.ret (some 2) (.bin .sub (some 1)
+        (.bin .mul (some 0) (.bin .add (some 10) (.var 10) (some 11) (.var 11))
+                   (some 0) (.bin .add (some 10) (.var 10) (some 11) (.var 11)))
+        none (.const 1))] := by decide
+
+/-- a cast of a parameter propagated to two uses (the "constant" branch of the pass) with nothing assigned in between -/
+theorem safeExample2_safe : SafeBlock
+    ⟨[10], [.assign (some 0) (.un .i2c (some 10) (.var 10)),
+            .assign (some 1) (.bin .add (some 0) (.var 0) (some 10) (.var 10)),
+            .ret (some 2) (.bin .xor (some 1) (.var 1) (some 0) (.var 0))]⟩ := by decide
 
 end AgVerif.Propagate
